@@ -488,6 +488,12 @@ def symbolic_comp(interp, e, g, seq, frame, kind):
     return prims.symbolic_comp(interp, e, g, seq, frame, kind)
 
 
+def filtered_comp(interp, e, g, seq, frame, kind):
+    from . import prims
+
+    return prims.filtered_comp(interp, e, g, seq, frame, kind)
+
+
 def nested_symbolic_comp(interp, e, gi, it, f, kind):
     from . import prims
 
